@@ -142,6 +142,12 @@ def run(ctx, rep):
     from . import span
     ext_cursor_rule(f, rep, 'C15.9')
     ext_length_rule(f, rep, 'C15.10')
+    # the address functions (C15.8) are evaluated on geometry fields; that the constructor derives those fields as the
+    # specification says - with default and with custom cache parameters, i.e. also when the two slice sizes differ - is C09.4
+    from . import c09 as _c09
+    rep.rule('C15.12', 'Qcow2Info fields (index shifts, masks, slice geometry) equal the specification formulas for each '
+                       '(cluster_bits, refcount_order), with default and with custom cache parameters')
+    _c09.geometry_rule(f, rep, 'C15.12')
     rep.rule('C15.7', 'the host-cluster span of a compressed extent is exactly the clusters it touches (allocation(), and releases computed in place)')
     span.allocation_rule(f, rep, 'C15.7')
     P = Program(f)
